@@ -671,10 +671,11 @@ type c11Unit struct {
 }
 
 type c11Prog struct {
-	units []c11Unit
-	nF    int
-	msgs  []int // messages worth observing
-	slots []int
+	units        []c11Unit
+	nF           int
+	msgs         []int // messages worth observing
+	slots        []int
+	redefinition bool
 }
 
 func (p *c11Prog) finalObservations() []c11Tok {
@@ -878,6 +879,9 @@ func c11RandomProg(rng *lib.Rng) *c11Prog {
 				perm[i], perm[j] = perm[j], perm[i]
 			}
 			comps = append(comps, perm[:n]...)
+			if n > 0 && n < 3 && rng.Chance(4) {
+				comps = append(comps, comps[rng.Intn(n)]) // a component written twice
+			}
 		}
 		var slots []c11Slot
 		var gets, sets []int
@@ -923,6 +927,23 @@ func c11RandomProg(rng *lib.Rng) *c11Prog {
 				p.units = append(p.units, c11Unit{toks: []c11Tok{{K: 'M', Fl: f, Kind: kind, Msg: msg, ID: id}}, deps: []int{unitOf[f]}})
 				id++
 			}
+		}
+	}
+	if rng.Chance(8) {
+		// the same (flavor, daemon kind, message) defined twice: the newer definition replaces
+		// the older one wherever the combination is shared
+		var ms []int
+		for i, u := range p.units {
+			if u.fl == 0 {
+				ms = append(ms, i)
+			}
+		}
+		if len(ms) > 0 {
+			u := p.units[ms[rng.Intn(len(ms))]]
+			t := u.toks[0]
+			t.ID = id
+			p.units = append(p.units, c11Unit{toks: []c11Tok{t}, deps: u.deps})
+			p.redefinition = true
 		}
 	}
 	for m := range msgSet {
@@ -1129,6 +1150,9 @@ func runC11(c *lib.Ctx) {
 			return out
 		}
 		c.Ev.Hist("flavors", strconv.Itoa(p.nF))
+		if p.redefinition {
+			c.Ev.Hist("programs_with", "method-redefinition")
+		}
 		c.Ev.Hist("units", strconv.Itoa(len(p.units)/5*5)+"+")
 		if len(p.units) <= 6 {
 			orders, _ := p.allOrders(c.Scale(24, 720))
